@@ -46,6 +46,8 @@ pub const TS_LOCS: &[&str] = &[
 pub const INTS: &[&str] = &["0", "1", "-1", "42", "-0", "1234567890123456789012", "7"];
 pub const FLOATS: &[&str] = &[
     "1.5", "0.0", "-1.25", "1e3", "1E3", "1e+3", "1.5e-3", "-0.0e0", "6.02E+23", "3.14159",
+    // exponents with leading zeros (printf style)
+    "1e-05", "2.5E+07", "3e00",
 ];
 
 /// strings: plain, hostile ASCII, Unicode
@@ -63,6 +65,9 @@ pub const STRINGS: &[&str] = &[
     "caf\u{e9}",
     "\u{3042}\u{3044}",
     "\u{1F600} astral",
+    // supplementary planes other than 1 (surrogate-pair arithmetic differs per plane)
+    "\u{20BB7}\u{2A6D6} plane 2",
+    "\u{10FFFD}\u{E0001} planes 16 and 14",
     "quote\"\"\"triple",
     "  indented",
     "a\n  b\n  c",
